@@ -5,6 +5,6 @@ Ops == {"==", "<", "<=", ">=", ">", "!=", "is", "is not", "in", "not in", "and",
 AllFeatures == {"op:" \o s : s \in Ops} \cup
     {"call:foo", "call:print", "method:append", "lit:5", "lit:1", "lit:0", "lit:2.5", "lit:1.0", "lit:'hi'", "lit:True", "lit:False",
      "type:int", "type:float", "type:str", "type:bool", "type:list", "type:dict",
-     "ast:For", "ast:While", "ast:If", "ast:ListComp", "ast:Lambda", "ast:Return", "ast:FunctionDef",
+     "ast:For", "ast:While", "ast:If", "ast:ListComp", "ast:Lambda", "ast:Return", "ast:FunctionDef", "ast:Add", "ast:Lt", "ast:And", "ast:USub",
      "import:math", "importfrom:math"}
 =============================================================================
